@@ -27,6 +27,8 @@ pub struct TFrame {
     pub method: String,
     pub file: Option<String>,
     pub line: u64,
+    /// parameter string of a `StackFrame::with_parameters` frame (never printed)
+    pub params: Option<String>,
 }
 
 impl TFrame {
@@ -261,7 +263,7 @@ impl<'a> TraceGen<'a> {
                 } else {
                     None
                 };
-                return TFrame { class: c, method: m, file, line: l };
+                return TFrame { class: c, method: m, file, line: l, params: None };
             }
         }
         let class = {
@@ -286,7 +288,7 @@ impl<'a> TraceGen<'a> {
         } else {
             None
         };
-        TFrame { class, method, file, line }
+        TFrame { class, method, file, line, params: None }
     }
 
     /// `canonical`: every cause level has an exception and every frame a file.
